@@ -528,6 +528,70 @@ def junction_body(n_out, residual, n_in, want, region="nonneg", chain=False):
     return body
 
 
+def group_junction_body(n, want):
+    """Junction inside a duration group over TWO consecutive steps: tcA (n rows) -> j -> tcB, tcC (same group). At each step and for
+    each elapsed-time row what leaves the junction is what entered it in that row, split by the proportions (nothing may be reused
+    from the previous step)"""
+
+    def body(env):
+        import atomica.model as am
+
+        pop = StubPop()
+        dt = env.real("dt", DT_LO, DT_HI)
+        dur = _par(am, pop, "dur", "duration", 1.0)
+        T = 3
+        tcs = {}
+        for nm in ("tcA", "tcB", "tcC"):
+            tc = pop.add_comp(am.TimedCompartment(pop, nm, dur))
+            d = pop.add_comp(am.Compartment(pop, "d" + nm))
+            tc.connect(d, dur)
+            tcs[nm] = tc
+        j = pop.add_comp(am.JunctionCompartment(pop, "j", duration_group="dur"))
+        pa = _par(am, pop, "pa", "probability", 1.0)
+        q1 = _par(am, pop, "q1", "proportion", 1.0)
+        q2 = _par(am, pop, "q2", "proportion", 1.0)
+        tcs["tcA"].connect(j, pa)
+        j.connect(tcs["tcB"], q1)
+        j.connect(tcs["tcC"], q2)
+        for nm, tc in tcs.items():
+            tc._vals = arr(env, (n, T))
+            for r in range(n):
+                tc._vals[r, 0] = env.real("%s_r%d" % (nm, r), 0, VMAX)
+        for l in j.outlinks:
+            l._vals = arr(env, (n, T))  # TimedLinks out of a junction take the keyring size of the group
+        tvec = micro.alloc(env, am, [pop], T)
+        for c in pop.comps:
+            if isinstance(c, am.Compartment) and not isinstance(c, (am.TimedCompartment, am.JunctionCompartment)):
+                c.vals[0] = 0.0
+        dur.vals[:] = 1.0
+        va = [env.real("pa_t%d" % k, 0, VMAX) for k in range(2)]
+        v1 = env.real("q1", 0, 1)
+        v2 = env.real("q2", 0, 1)
+        env.assume(env.b(v1 + v2 > 0), "domain restriction: the proportions of a plain junction have a positive sum")
+        for k in range(2):
+            pa.vals[k] = va[k]
+            q1.vals[k] = v1
+            q2.vals[k] = v2
+        m = micro.new_model(am, [pop], dt, tvec)
+        with env.installed(micro.patches(am)), micro.merge_points(am, env.symbolic):
+            env.heap(micro.heap_of([pop]))
+            m.update_links()
+            m._t_index = 1
+            m.update_comps()
+            m.update_links()
+        lin = j.inlinks[0]
+        for ti in range(2):
+            for r in range(n):
+                inflow = lin._vals[r, ti]
+                out = 0.0
+                for l in j.outlinks:
+                    out = out + l._vals[r, ti]
+                env.claim("junction_row_out_equals_in|t%d|r%d" % (ti, r), env.eq(out, inflow), key="group_junction_balance")
+                env.claim("junction_row_split|t%d|r%d" % (ti, r), env.eq(j.outlinks[0]._vals[r, ti] * (v1 + v2), inflow * v1), key="group_junction_split")
+
+    return body
+
+
 def flush_body(n_out, residual, want, chain=False, timed_dest=False):
     """Initial flush: junction holds J >= 0 people at index 0; downstream compartments hold their own initial values"""
 
@@ -744,6 +808,9 @@ def kernel_specs(prop, tier):
         for n_out, res in [(2, False), (2, True)]:
             nm = "junction[out=%d;%s;in=1;anysign]" % (n_out, "residual" if res else "plain")
             specs.append((nm, junction_body, dict(n_out=n_out, residual=res, n_in=1, region="anysign"), dict(kind="junction, proportions of any sign", outflows=n_out, residual=res)))
+    if prop in ("C04", "C05", "C01"):
+        for n in ((3,) if q else (3, 4)):  # with two rows only one row can carry a duration-preserving flow (nothing leaves from the final bin)
+            specs.append(("group_junction[rows=%d;two steps]" % n, group_junction_body, dict(n=n), dict(kind="junction of a duration group, two consecutive steps", rows=n)))
     if prop in ("C04", "C01"):
         fl = [(2, False, {}), (3, False, dict(chain=True)), (2, True, {}), (2, True, dict(chain=True)), (2, False, dict(timed_dest=True))]
         if not q:
